@@ -755,9 +755,9 @@ def build_domain(chk: common.Check) -> None:
     nb = 16 if quick else 30
     B = gen.subdomain(chk.rng, D, nb, always=gen.BOUND_CORE)
     G['B'] = B
-    # version_compare(a, op+b): all pairs of D (quick) / of a 1100-element subdomain (thorough; the order itself is
+    # version_compare(a, op+b): all pairs of a 420- (quick) / 1100-element (thorough) subdomain of D (the order itself is
     # covered for all pairs of D by the pairs phase)
-    vcs = D if quick else gen.subdomain(chk.rng, D, 1100, always=gen.SPECIALS + gen.COMPONENTS + gen.BOUND_CORE)
+    vcs = gen.subdomain(chk.rng, D, 420 if quick else 1100, always=gen.SPECIALS + gen.COMPONENTS + gen.BOUND_CORE)
     G['VCIDX'] = [idx[s] for s in vcs]
     G['space_stride'] = 17 if quick else 7
     G['space_phase'] = chk.seed % G['space_stride']
@@ -1227,6 +1227,7 @@ def phase_meson(chk: common.Check) -> None:
             chk.sample({'meson_version': mv, 'project': pv, 'always_calls': [(str(e['self']), str(e['inner']), e['result']) for e in det[:3]]})
     chk.notes['meson_version_seen'] = mv
     phase_meson_chains(chk, scratch)
+    phase_meson_near(chk, scratch)
 
 
 # ---- per-clause data flow of the narrowing (if / elif / else chains) -------------------------------------------
@@ -1487,6 +1488,120 @@ def phase_meson_chains(chk: common.Check, scratch: str) -> None:
             chk.sample({'chain': chain_project(pv, [chains[1]], [has_else[1]])[0].splitlines()[2:], 'taken': taken.get(1)})
 
 
+# ---- meson.version() itself as the subject: constraints in the neighbourhood of the running version -----------------
+
+def version_neighbours(mv: str) -> T.List[str]:
+    """Versions at, just below and just above `mv`, derived structurally from its numeric components."""
+    nums = [t for t in ref.tokens(mv) if isinstance(t, int)]
+    out: T.Dict[str, None] = {mv: None}
+    if not nums:
+        return list(out)
+
+    def j(xs: T.Sequence[int]) -> str:
+        return '.'.join(str(x) for x in xs)
+    for i in range(len(nums)):
+        for d in (-1, 1):
+            if nums[i] + d < 0:
+                continue
+            head = nums[:i] + [nums[i] + d]
+            out.setdefault(j(head + [0] * (len(nums) - i - 1)))       # next/previous release at this level
+            out.setdefault(j(head + nums[i + 1:]))                     # only this component moved
+            out.setdefault(j(head))                                    # shorter spelling
+    out.setdefault(j(nums[:-1]))
+    out.setdefault(j(nums + [0]))
+    out.setdefault(j(nums + [1]))
+    out.setdefault(j(nums) + 'rc1')
+    out.setdefault(j(nums[:-1] + [nums[-1] + 1]) + '.rc')
+    out.setdefault('-'.join(str(x) for x in nums))
+    out.setdefault(j(nums[:-1] + [int(str(nums[-1]) + '0')]))         # 99 -> 990 (numeric, not string order)
+    return [v for v in out if v]
+
+
+def near_project(cases: T.Sequence[T.Sequence[str]], pv: T.Optional[str]) -> str:
+    lines = ["project('c19near'%s)" % ('' if pv is None else ', meson_version: ' + q(pv)),
+             "v = meson.version()", "plain = '@0@'.format(v)", "message('MV|0|' + v)",
+             "message('EQ|0|' + (v == plain).to_string())"]
+    for i, cs in enumerate(cases):
+        args = ', '.join(q(c) for c in cs)
+        lines.append("message('NV|%d|' + v.version_compare(%s).to_string() + '|' + plain.version_compare(%s).to_string())" % (i, args, args))
+        if i % 4 == 0:
+            lines += ["if meson.version().version_compare(%s)" % args, "  message('NB|%d|true')" % i, "else", "  message('NB|%d|false')" % i, "endif"]
+    return '\n'.join(lines) + '\n'
+
+
+def near_findings(text_cases: T.Sequence[T.Sequence[str]], pv: T.Optional[str], scratch: str, name: str) -> T.Tuple[T.List[T.Tuple[str, dict]], T.Dict[str, int], T.Any]:
+    r = run_chain_project(near_project(text_cases, pv), scratch, name)
+    cnt = {'cases': 0, 'if-branches': 0}
+    out: T.List[T.Tuple[str, dict]] = []
+    if r.timed_out or r.rc != 0:
+        return out, cnt, r
+    mv = meson_messages(r.out, 'MV').get(0)
+    nv: T.Dict[int, T.Tuple[str, str]] = {}
+    nb = meson_messages(r.out, 'NB')
+    for line in r.out.splitlines():
+        if 'Message:' in line and 'NV|' in line:
+            parts = line.split('NV|', 1)[1].split('|')
+            if len(parts) >= 3 and parts[0].isdigit():
+                nv[int(parts[0])] = (parts[1].strip(), parts[2].strip())
+    if mv is None:
+        return out, cnt, r
+    for i, cs in enumerate(text_cases):
+        exp = [ref.satisfies(mv, c) for c in cs]
+        if None in exp or i not in nv:
+            continue
+        want = 'true' if all(exp) else 'false'
+        cnt['cases'] += 1
+        w = {'kind': 'meson-near', 'cs': list(cs), 'project_version': pv, 'meson_version_printed': mv,
+             'meson.version().version_compare': nv[i][0], 'equal_plain_string.version_compare': nv[i][1], 'order_says': want}
+        if nv[i][0] != want:
+            out.append(('meson:meson.version().version_compare-disagrees-with-order-of-the-printed-version', w))
+        if nv[i][1] != want:
+            out.append(('meson:str.version_compare-disagrees-with-reference', w))
+        if nv[i][0] != nv[i][1]:
+            out.append(('meson:meson.version()-and-an-equal-plain-string-compare-differently', w))
+        if i in nb:
+            cnt['if-branches'] += 1
+            if nb[i] != want:
+                out.append(('meson:if-branch-disagrees-with-reference', dict(w, branch=nb[i])))
+    return out, cnt, r
+
+
+def phase_meson_near(chk: common.Check, scratch: str) -> None:
+    """Every operator spelling x versions at / just below / just above the running meson version (whatever it
+    is), asked of meson.version() and of an equal plain string, plus constraint lists; expectation = reference order
+    applied to the string meson.version() printed."""
+    from mesonbuild import coredata
+    rng = chk.rng
+    near = version_neighbours(str(coredata.version))
+    cases: T.List[T.List[str]] = [[op + v] for v in near for op in gen.OPERATORS]
+    cases += [[op + ' ' + v] for v in near[:6] for op in gen.OPERATORS[:-1]]
+    for _ in range(40):
+        cases.append([rng.choice(gen.OPERATORS) + rng.choice(near) for _ in range(rng.choice([2, 2, 3]))])
+    chk.notes['near_versions'] = near
+    for pi, pv in enumerate([None, '>=1.0.0']):
+        fs, cnt, r = near_findings(cases, pv, scratch, f'near{pi}')
+        if r.timed_out or r.rc != 0:
+            chk.inconclusive_case('meson-near-setup-failed')
+            chk.notes['meson_near_failure'] = r.brief()
+            continue
+        chk.count('monitor:meson:meson.version().version_compare(near-running-version)', cnt['cases'])
+        chk.count('monitor:meson:if-version_compare-branch', cnt['if-branches'])
+        for cs in cases:
+            chk.case(('meson-near', pv, tuple(ref.parse_constraint(c)[0] if ref.parse_constraint(c) else '?' for c in cs)))
+        if meson_messages(r.out, 'EQ').get(0) != 'true':
+            chk.violation('meson:meson.version()-not-equal-to-its-own-text', {'kind': 'meson-near', 'cs': [], 'project_version': pv})
+        check_meson_records(chk, r.records, f'near{pi}')
+        per: T.Dict[str, int] = {}
+        for mech, w in fs:
+            per[mech] = per.get(mech, 0) + 1
+            if per[mech] <= 2:
+                chk.violation(mech, w)
+            else:
+                chk.count('violations-by-mechanism:' + mech)
+        if pi == 0 and cnt['cases']:
+            chk.sample({'meson.version()': meson_messages(r.out, 'MV').get(0), 'near_constraints': [c[0] for c in cases[:6]]})
+
+
 # =============================================================================================
 
 def rerun_event(ev: dict) -> dict:
@@ -1547,6 +1662,13 @@ def replay(chk: common.Check, path: str) -> int:
         fs = many_findings(w['meson_version'], w['cs'])
         if None not in exp and U().version_compare_many(w['meson_version'], w['cs'])[0] != all(exp):
             fs.append(('meson:if-branch-disagrees-with-reference', w))
+    elif kind == 'meson-near':
+        runner.preload()
+        sc = common.scratch_dir('c19r')
+        fs, _, r = near_findings([w['cs']] if w.get('cs') else [], w.get('project_version'), sc, 'replay')
+        if r.rc != 0 or r.timed_out:
+            print(f'[{PID}] replay: meson setup failed rc={r.rc}')
+            return 3
     elif kind == 'meson-flow' and w.get('meson_build'):
         runner.preload()
         sc = common.scratch_dir('c19r')
@@ -1615,7 +1737,8 @@ def main() -> int:
                   ('monitor:meson:flow:clauses-with-version-check', 20), ('monitor:meson:flow:clauses-without-version-check', 20),
                   ('monitor:meson:flow:elif-clauses', 20), ('monitor:meson:flow:always-attributed', 20),
                   ('monitor:meson:flow:intersect-attributed', 20), ('monitor:meson:flow:feature-checks-in-narrowed-body', 5),
-                  ('monitor:meson:flow:else-blocks', 5), ('monitor:meson:chain-branch-taken', 30)]:
+                  ('monitor:meson:flow:else-blocks', 5), ('monitor:meson:chain-branch-taken', 30),
+                  ('monitor:meson:meson.version().version_compare(near-running-version)', 200)]:
         chk.require(m, mn)
     for c in ('always:True', 'always:False', 'always:None', 'intersect:empty', 'intersect:nonempty', 'cond_min:True', 'cond_min:False',
               'to_range:with-!=', 'to_range:empty-result'):
@@ -1629,7 +1752,8 @@ def main() -> int:
         'monitor:Range.__contains__(spec x version)', 'monitor:Range.intersect(membership-iff-both)',
         'monitor:version_check_to_range(superset-of-all,subset-of-non-!=)', 'monitor:version_check_to_range(start=)',
         'monitor:version_compare_condition_with_min', 'monitor:meson:str.version_compare', 'monitor:meson:if-version_compare-branch',
-        'monitor:directed-order-probes', 'monitor:meson:chain-branch-taken', 'monitor:meson:flow:clauses'))
+        'monitor:directed-order-probes', 'monitor:meson:chain-branch-taken', 'monitor:meson:flow:clauses',
+        'monitor:meson:meson.version().version_compare(near-running-version)'))
     if chk.counters.get('harness:fastpath-not-confirmed'):
         chk.inconclusive.append('harness fast path flagged cases the detail predicate did not confirm')
     return chk.finish(
